@@ -278,7 +278,9 @@ def check_layer_lookup_names(repo: Repo, res: Result) -> None:
     from .c05_walk import order_witness
 
     for text, key, call in witness_fields(repo, list(reach)):
-        wverdict, wdetail = order_witness(repo, view, text, key)
+        init = lmap.methods.get("__init__")
+        init_view = dview(repo, init, lmap, family(repo, lmap), tag="lmap") if init is not None else None
+        wverdict, wdetail = order_witness(repo, view, text, key, init_view)
         k = f"{lookup.relpath}::LayerMapping.get_layer_for_module_name::no listed ancestor is skipped in the sorted list `{text}`"
         if wverdict == "skipped":
             res.observe(f"C05.R5 order witness for `{text}` not run: {wdetail}")
